@@ -22,6 +22,8 @@ import EV.Proofs.SighashCommitsT
 import EV.Proofs.SighashErrors
 import EV.Proofs.SighashViewAgree
 import EV.Proofs.MemTx
+import EV.Proofs.BridgeTapLeaf
+import EV.Proofs.BridgeSighashCodec
 namespace EV.Props.C03
 open EV EV.Codec EV.Sighash EV.Proofs.CodecTx
 
@@ -409,5 +411,227 @@ example : InRange .all 1 exTx ∧ InRange .single 0 exTx ∧ ¬ InRange .single 
 example : (setScriptWitness exTx 1 [[9]] ≠ exTx) := by decide
 
 example : msgLegacy exTx 1 [0xac] .single = .ok uint256One := by decide
+
+/-! ### bridge to C15: the leaf a script-path digest commits to is the leaf a control block opens
+
+  `taproot_script_spend_signature_hash` takes the tapleaf hash as 32 opaque bytes; callers obtain it from
+  `TapLeafHash::from_script(script, leaf_version)` (`tapLeafHash`, what the correspondence driver of this property
+  computes).  The script-tree model of C15 (`EV.Model.Taproot`) has its own `leafHash`, from which merkle roots are
+  built and from which `ControlBlock::verify_taproot_commitment` recomputes the root.  With C15's hash record
+  instantiated the way both drivers do it (`tapHashesOf H`: the tagged hash of this property under the three
+  taproot tags; `tap_hashes_of_drivers`), the two are the same function, so the theorems of the two properties compose. -/
+
+section bridgeC15
+open EV.Proofs.BridgeTapLeaf EV.Proofs.TaprootSpend
+
+/-- the hash records the two correspondence drivers run are related by `tapHashesOf`, and the leaf tag extracted
+    for this property is the one extracted for C15 -/
+theorem tap_hashes_of_drivers :
+    EV.Driver.C15.tapHashes = tapHashesOf EV.Driver.SighashUtil.sigHashes ∧ Gen.tapLeafTag = Gen.Taproot.leafTag :=
+  ⟨drivers_agree, leafTag_agree⟩
+
+/-- **the two models of `TapLeafHash::from_script` agree** (C03's `tapLeafHash`, C15's `leafHash`) -/
+theorem tapleaf_hash_is_c15_leaf_hash (script : Bytes) (ver : UInt8) (n : Nat) :
+    tapLeafHash H script ver.toNat = Taproot.leafHash (tapHashesOf H) script ver ∧
+    tapLeafHash H script n = Taproot.leafHash (tapHashesOf H) script (UInt8.ofNat n) :=
+  ⟨tapLeafHash_eq' H script ver, tapLeafHash_eq H script n⟩
+
+/-- the message hashed for a script-path spend of leaf `(script, ver)` ends in C15's leaf hash of that leaf — the
+    value `verify_taproot_commitment` folds the control block's path over (`computeRoot`) —, the key version byte and
+    the code separator position -/
+theorem script_spend_message_ends_in_leaf_hash (tx : Tx) (idx : Nat) (pv : Prevouts) (annex : Option Bytes)
+    (script : Bytes) (ver : UInt8) (pos : Nat) (ty : SchnorrTy) (g m : Bytes) (branch : List Bytes)
+    (h : msgTaproot H tx idx pv annex (some (tapLeafHash H script ver.toNat, pos)) ty g = .ok m) :
+    (∃ pre, m = pre ++ (Taproot.leafHash (tapHashesOf H) script ver ++ [UInt8.ofNat Gen.sighashKeyVersion0] ++ encLe 4 pos)) ∧
+    Taproot.ControlBlock.computeRoot (tapHashesOf H) script ver branch =
+      branch.foldl (fun cur e => Taproot.branchHash (tapHashesOf H) cur e) (Taproot.leafHash (tapHashesOf H) script ver) := by
+  rw [tapLeafHash_eq'] at h
+  exact ⟨msgTaproot_leaf_suffix H tx idx pv annex _ pos ty g m h, rfl⟩
+
+/-- **a script-path digest commits to (script, leaf version)**: two successful script-spend digests (same hash type
+    and input index) that are equal were computed for the same script and leaf version (and `taprootAgree`
+    transactions, same genesis hash), or a collision of SHA-256, of the TapSighash hash or of the TapLeaf hash is
+    exhibited -/
+theorem script_spend_commits_to_leaf (hl : HashLen H) (hlt : ∀ tag x, (H.tagged tag x).length = 32)
+    (a b : Tx) (ha : a.wf P) (hb : b.wf P) (ty : SchnorrTy) (idx : Nat) (pa pb : Prevouts)
+    (sa sb : Bytes) (va vb : UInt8) (ga gb : Bytes)
+    (hty : ty ≠ .reserved) (hpa : pa.wf P) (hpb : pb.wf P) (hga : ga.length = 32) (hgb : gb.length = 32)
+    (hsa : sa.length < 2 ^ 64) (hsb : sb.length < 2 ^ 64) (d : Bytes)
+    (h1 : taprootScriptSighash H a idx pa (tapLeafHash H sa va.toNat) ty ga = .ok d)
+    (h2 : taprootScriptSighash H b idx pb (tapLeafHash H sb vb.toNat) ty gb = .ok d) :
+    (taprootAgree ty idx a b pa pb ∧ sa = sb ∧ va = vb ∧ ga = gb) ∨
+    Collision H.sha256 ∨ Collision (H.tagged Gen.tapSighashTag) ∨ Collision (H.tagged Gen.Taproot.leafTag) := by
+  have hlen : ∀ (s : Bytes) (v : UInt8) (h : Bytes) (p : Nat),
+      (some (tapLeafHash H s v.toNat, 0xFFFFFFFF) : Option (Bytes × Nat)) = some (h, p) → h.length = 32 ∧ p < 2 ^ 32 := by
+    intro s v h p e
+    simp only [Option.some.injEq, Prod.mk.injEq] at e
+    obtain ⟨e1, e2⟩ := e
+    subst e1; subst e2
+    exact ⟨hlt _ _, by decide⟩
+  rcases taproot_commits_agree P H hl a b ha hb ty idx pa pb none none _ _ ga gb hty hpa hpb hga hgb
+    (fun x hx => by cases hx) (fun x hx => by cases hx) (hlen sa va) (hlen sb vb) d h1 h2 with ⟨hag, _, hleaf, hg⟩ | hc | hc
+  · simp only [Option.some.injEq, Prod.mk.injEq, and_true] at hleaf
+    rw [tapLeafHash_eq', tapLeafHash_eq'] at hleaf
+    rcases leafHash_binds (tapHashesOf H) sa sb va vb hsa hsb hleaf with ⟨e1, e2⟩ | hc
+    · exact Or.inl ⟨hag, e1, e2, hg⟩
+    · exact Or.inr (Or.inr (Or.inr hc))
+  · exact Or.inr (Or.inl hc)
+  · exact Or.inr (Or.inr (Or.inl hc))
+
+/-- **`script_spend_commits_to_opened_leaf`** (C03 `taproot_commits_agree` ∘ C15 `cb_binds`).  A verifier holds an
+    output key committing to tree `t` (internal key `key`), a revealed script `s` and a control block `cb` (carrying the
+    committed internal key and parity) that passes `verify_taproot_commitment`; it computes the script-spend digest for
+    the leaf `(s, cb.leaf_version)`.  A signer computed its digest for a leaf `(s', v')`.  If the two digests are equal
+    (so that the signature checks), then the signer's leaf IS the revealed one, and it is a genuine opening of `t` —
+    the sibling path of a leaf of `t` with exactly that script and version (or a path into a hidden node) —, or one of
+    the hash functions collides. -/
+theorem script_spend_commits_to_opened_leaf (E : Taproot.EC) (law : ECLaw E) (inj : ECTweakInj E)
+    (hl : HashLen H) (hlt : ∀ tag x, (H.tagged tag x).length = 32)
+    (key : Bytes) (t : Taproot.Tree) (si : Taproot.SpendInfo)
+    (hsi : Taproot.fromNodeInfo E (tapHashesOf H) key (Taproot.info (tapHashesOf H) t) = .ok si) (ht : EV.Proofs.TaprootCb.ScriptsOk t)
+    (cb : Taproot.ControlBlock) (s : Bytes) (hk : cb.internalKey = key) (hp : cb.parity = si.parity)
+    (hbr : ∀ e ∈ cb.branch, e.length = 32) (hs : s.length < 2 ^ 64)
+    (hv : cb.verify E (tapHashesOf H) si.outputKey s = .ok true)
+    (a b : Tx) (ha : a.wf P) (hb : b.wf P) (ty : SchnorrTy) (idx : Nat) (pa pb : Prevouts) (s' : Bytes) (v' : UInt8)
+    (ga gb : Bytes) (hty : ty ≠ .reserved) (hpa : pa.wf P) (hpb : pb.wf P) (hga : ga.length = 32) (hgb : gb.length = 32)
+    (hs' : s'.length < 2 ^ 64) (d : Bytes)
+    (hverifier : taprootScriptSighash H a idx pa (tapLeafHash H s cb.leafVersion.toNat) ty ga = .ok d)
+    (hsigner : taprootScriptSighash H b idx pb (tapLeafHash H s' v'.toNat) ty gb = .ok d) :
+    (s' = s ∧ v' = cb.leafVersion ∧ taprootAgree ty idx a b pa pb ∧ ga = gb ∧
+      EV.Proofs.TaprootCb.Opens (tapHashesOf H) t s' v' cb.branch) ∨
+    Collision H.sha256 ∨ Collision (H.tagged Gen.tapSighashTag) ∨ Collision (H.tagged Gen.Taproot.leafTag) ∨
+    Collision (H.tagged Gen.Taproot.branchTag) ∨ Collision (H.tagged Gen.Taproot.tweakTag) ∨
+    EV.Proofs.TaprootCb.Cross (H.tagged Gen.Taproot.leafTag) (H.tagged Gen.Taproot.branchTag) := by
+  rcases script_spend_commits_to_leaf P H hl hlt a b ha hb ty idx pa pb s s' cb.leafVersion v' ga gb hty hpa hpb hga hgb
+    hs hs' d hverifier hsigner with ⟨hag, e1, e2, hg⟩ | hc | hc | hc
+  · rcases cb_binds E (tapHashesOf H) law inj (len32_of H hlt) key t si hsi ht cb s hk hp hbr hs hv with ho | hc | hc | hc | hc
+    · exact Or.inl ⟨e1.symm, e2.symm, hag, hg, by rw [← e1, ← e2]; exact ho⟩
+    · exact Or.inr (Or.inr (Or.inr (Or.inr (Or.inr (Or.inl hc)))))
+    · exact Or.inr (Or.inr (Or.inr (Or.inl hc)))
+    · exact Or.inr (Or.inr (Or.inr (Or.inr (Or.inl hc))))
+    · exact Or.inr (Or.inr (Or.inr (Or.inr (Or.inr (Or.inr hc)))))
+  · exact Or.inr (Or.inl hc)
+  · exact Or.inr (Or.inr (Or.inl hc))
+  · exact Or.inr (Or.inr (Or.inr (Or.inl hc)))
+
+/-- conversely every leaf of a tree gets a control block that verifies (C15 `cb_verifies`), and the digest a signer
+    computes for that leaf is the digest computed from the C15 leaf hash the control block opens -/
+theorem every_leaf_signable (E : Taproot.EC) (law : ECLaw E) (key : Bytes) (t : Taproot.Tree) (si : Taproot.SpendInfo)
+    (hsi : Taproot.fromNodeInfo E (tapHashesOf H) key (Taproot.info (tapHashesOf H) t) = .ok si)
+    (tx : Tx) (idx : Nat) (pv : Prevouts) (ty : SchnorrTy) (g : Bytes) :
+    ∀ l ∈ (Taproot.info (tapHashesOf H) t).leaves, ∃ cb, Taproot.controlBlock si l.script l.ver = some (some cb) ∧
+      cb.verify E (tapHashesOf H) si.outputKey l.script = .ok true ∧
+      taprootScriptSighash H tx idx pv (tapLeafHash H l.script cb.leafVersion.toNat) ty g =
+        taprootSighash H tx idx pv none (some (Taproot.leafHash (tapHashesOf H) l.script l.ver, 0xFFFFFFFF)) ty g := by
+  intro l hl
+  obtain ⟨cb, h1, h2, _, _, _, _, h7⟩ := cb_verifies E (tapHashesOf H) law key t si hsi l hl
+  exact ⟨cb, h1, h7, by rw [tapLeafHash_eq', h2]; rfl⟩
+
+/-- the hypotheses on the hash record are satisfiable together (32-byte outputs for every function) -/
+example : ∃ H : SigHashes, HashLen H ∧ ∀ tag x, (H.tagged tag x).length = 32 :=
+  ⟨⟨fun _ => List.replicate 32 0, fun _ => List.replicate 32 0, fun _ _ => List.replicate 32 0⟩,
+   ⟨fun _ => List.length_replicate, fun _ => List.length_replicate⟩, fun _ _ => List.length_replicate⟩
+
+/-- a two-leaf tree, its second leaf and the control block C15 hands out for it: the script-spend query with the
+    leaf hash of that leaf succeeds on `exTx` (key-path-free example of `hverifier`) -/
+example : (taprootScriptSighash ⟨fun b => b.take 32, fun b => b.take 32, fun _ b => b.take 32⟩ exTx 0
+    (.all [txOutDefault, txOutDefault])
+    (tapLeafHash ⟨fun b => b.take 32, fun b => b.take 32, fun _ b => b.take 32⟩ [0x51] Taproot.tapscriptVer.toNat) .default
+    (List.replicate 32 0)).isOk = true := by decide
+
+end bridgeC15
+
+/-! ### bridge to C01/C02: the messages are built from the SAME encoders as the transaction serialization
+
+  `EV.Model.Sighash` has no encoder of its own for a transaction part: the as-coded messages and the specification
+  serializers are written with `TxIn.enc`, `TxOut.enc`, `OutPoint.enc`, `Value.enc`, `Asset.enc`, `AssetIssuance.enc`,
+  `TxOutWitness.enc`, `encOptProof`, `encBytesVec`, `encVec`, `encLe` of `EV.Model.Transaction` / `EV.Model.Codec` — the
+  functions C01 proves lawful (`tx_laws` …) and C02 injective.  The three local re-definitions of the specification
+  part are equal to them (`sighash_spec_encoders_agree`).  Beyond the inventory (`EV.Proofs.BridgeSighashCodec`): -/
+
+section bridgeC01
+open EV.Proofs.BridgeSighashCodec
+
+/-- the only encoders Part 2 of the model defines for itself (`encIssuanceOpt`, `flagByte`, `encProofs`) are the
+    as-coded ones, i.e. C01's `AssetIssuance.enc` (or the byte `00`), the outpoint flag byte, C01's `encOptProof` twice -/
+theorem sighash_spec_encoders_agree (i : TxIn) :
+    encIssuanceOpt (issuanceOf i) = issuanceOrZero i ∧
+    issuanceOrZero i = (if i.hasIssuance then i.assetIssuance.enc else [0]) ∧
+    flagByte (inFlag i) = outpointFlag i ∧
+    encProofs (proofsOf i) = issuanceProofs i ∧
+    issuanceProofs i = encOptProof i.witness.amountRangeproof ++ encOptProof i.witness.inflationKeysRangeproof :=
+  spec_encoders_agree i
+
+/-- **LEGACY message format in C01 terms.**  The specification message is C01's witness-stripped transaction encoding
+    `Tx.encStripped` (the txid preimage of C02) of the transaction to sign (`legacyTx`), with the Elements flag byte at
+    offset 4 removed (`dropFlag`), followed by the hash type — the Rust comment "cannot encode tx directly because of
+    different consensus encoding of elements tx" as a theorem; conversely the stripped encoding is the message with the
+    byte `00` put back -/
+theorem legacy_message_is_stripped_tx_encoding (v : LegacyView) :
+    serLegacy v = dropFlag (legacyTx v).encStripped ++ encLe 4 v.hashType ∧
+    (legacyTx v).encStripped =
+      (serLegacy v).take 4 ++ [0] ++ ((serLegacy v).drop 4).take ((serLegacy v).length - 8) :=
+  ⟨serLegacy_eq v, encStripped_of_serLegacy v⟩
+
+/-- **LEGACY, as coded.**  For an in-range query on a canonical transaction the bytes `encode_legacy_signing_data_to`
+    writes are that encoding of the transaction to sign `t'`; `t'` carries no witness, so C01's `Tx.enc t'` IS the
+    stripped encoding, its txid (C02) is the double SHA-256 of it, and C01's decoder returns `t'` from it -/
+theorem legacy_msg_is_tx_encoding (hs : SizesPos P) (tx : Tx) (htx : tx.wf P) (idx : Nat) (script : Bytes)
+    (ty : EcdsaTy) (hsc : script.length ≤ maxVecSize) (hr : InRange ty idx tx) (Hh : Hashes) :
+    let t' := legacyTx (specLegacyView tx idx script ty.asU32)
+    msgLegacy tx idx script ty = .ok (dropFlag t'.encStripped ++ encLe 4 ty.asU32) ∧
+    t'.enc = t'.encStripped ∧ t'.txid Hh = Hh.sha256d t'.encStripped ∧ t'.wf P ∧
+    (∀ r, Tx.dec P (t'.encStripped ++ r) = .ok (t', r)) := by
+  intro t'
+  obtain ⟨h1, h2, h3⟩ := msgLegacy_is_tx_encoding P hs tx htx idx script ty hsc hr
+  exact ⟨h1, h2, rfl, legacyTx_wf P hs tx htx idx script ty hsc hr, h3⟩
+
+/-- **SEGWIT v0 / TAPROOT: the hashed preimages are C01 vector encodings.**  `sha_prevouts`, `sha_sequences`,
+    `sha_outputs`, `sha_output_witnesses`, `sha_scriptpubkeys` hash the element concatenation of C01's `encVec` of the
+    outpoints / sequences / outputs / output witnesses / spent scripts, i.e. the vector encoding without its length prefix -/
+theorem sighash_preimages_are_vector_encodings (tx : Tx) (ps : List TxOut) :
+    encVec OutPoint.enc (tx.input.map (fun i => i.previousOutput)) = encVarint tx.input.length ++ preOutpoints tx ∧
+    encVec (encLe 4) (tx.input.map (fun i => i.sequence)) = encVarint tx.input.length ++ preSequences tx ∧
+    encVec TxOut.enc tx.output = encVarint tx.output.length ++ preOutputs tx ∧
+    encVec TxOutWitness.enc (tx.output.map (fun o => o.witness)) = encVarint tx.output.length ++ preOutputWitnesses tx ∧
+    encVec encBytesVec (ps.map (fun p => p.scriptPubkey)) = encVarint ps.length ++ preScriptPubkeys ps :=
+  preimages_are_vectors tx ps
+
+/-- … and `sha_outputs` / `sha_output_witnesses` hash literal SEGMENTS of the consensus serialization of the transaction
+    (C01 `Tx.encStripped` = txid preimage, `Tx.enc`); the witness of an input starts with its issuance range proofs as
+    `sha_issuance_rangeproofs` hashes them -/
+theorem sighash_preimages_are_segments_of_tx_encoding (tx : Tx) :
+    tx.encStripped = encLe 4 tx.version ++ [0] ++ encVarint tx.input.length ++ tx.input.flatMap TxIn.enc ++
+      encVarint tx.output.length ++ preOutputs tx ++ encLe 4 tx.lockTime ∧
+    (tx.hasWitness = true →
+      tx.enc = encLe 4 tx.version ++ [1] ++ encVarint tx.input.length ++ tx.input.flatMap TxIn.enc ++
+        encVarint tx.output.length ++ preOutputs tx ++ encLe 4 tx.lockTime ++
+        tx.input.flatMap (fun i => i.witness.enc) ++ preOutputWitnesses tx) ∧
+    (∀ i : TxIn, i.witness.enc = issuanceProofs i ++ encBytesVecVec i.witness.scriptWitness ++
+      encBytesVecVec i.witness.peginWitness) :=
+  ⟨encStripped_segments tx, fun h => (enc_segments tx h).1, fun _ => rfl⟩
+
+/-- the one place where the sighash input data and C01's `TxIn.enc` differ: `TxIn.enc` writes the outpoint with the
+    pegin / issuance flags inside the vout word, the sighash algorithms commit to the PLAIN outpoint `OutPoint.enc
+    previousOutput` (and, in taproot, to the flags as a separate byte; in segwit v0 the pegin flag is not committed at
+    all — `segwit_ignores`).  On inputs without flags the two coincide.  The issuance bytes are the same. -/
+theorem sighash_outpoint_vs_txin_encoding (i : TxIn) :
+    TxIn.enc i = OutPoint.enc ⟨i.previousOutput.txid, i.voutWord⟩ ++ encBytesVec i.scriptSig ++ encLe 4 i.sequence ++
+      (if i.hasIssuance then i.assetIssuance.enc else []) ∧
+    (i.isPegin = false → i.hasIssuance = false →
+      TxIn.enc i = OutPoint.enc i.previousOutput ++ encBytesVec i.scriptSig ++ encLe 4 i.sequence) ∧
+    (i.hasIssuance = true → issuanceOrZero i = i.assetIssuance.enc) :=
+  txIn_enc_parts i
+
+/-- the hypotheses of `legacy_msg_is_tx_encoding` are satisfiable: `exTx` is canonical for permissive primitives, and
+    the ALL query on input 1 is in range -/
+example : let P0 : Prims := ⟨fun _ => true, fun _ => true, fun _ => true, fun _ => true, fun _ => true, fun _ => true, 1, 1, 1⟩
+    SizesPos P0 ∧ exTx.wf P0 ∧ InRange .all 1 exTx ∧ ([0xac] : Bytes).length ≤ maxVecSize := by
+  refine ⟨⟨by decide, by decide, by decide⟩, ?_, by simp only [InRange]; decide, by decide⟩
+  simp [Tx.wf, exTx, TxIn.wf, TxIn.wfBody, TxIn.hasIssuance, AssetIssuance.isNull, AssetIssuance.null, Value.isNull,
+    TxInWitness.wf, TxInWitness.empty, TxInWitness.wfStack, wfOptProof, TxOut.wf, TxOut.wfBody, TxOutWitness.wf,
+    TxOutWitness.empty, Asset.wf, Value.wf, Nonce.wf, maxVecSize, AssetIssuance.zero32]
+
+end bridgeC01
 
 end EV.Props.C03
